@@ -13,8 +13,8 @@ history generated as data:
 
 A simulated bus answers every GroupValueRead seen by the stub according to a generated plan
 (response after a latency, no response, response after the 2 s read timeout). The oracle is a
-set of validity predicates over the log of GroupValueRead frames seen by the stub (virtual time,
-destination), the log of delivered state telegrams and the entry/exit log of ValueReader.read.
+set of validity predicates over the log of GroupValueRead telegrams queued on xknx.telegrams (virtual
+time, destination; each is answered when it reaches the stub), the log of delivered state telegrams and the entry/exit log of ValueReader.read.
 """
 
 from __future__ import annotations
@@ -38,7 +38,7 @@ RULE = (
     "non-trivial = at least one session (value registered while connected) of an expire/every tracker that lasts longer than its interval, or a reconnection, or a state telegram inside a session; distinct by case"
 )
 LEVEL_TEXT = (
-    "Generated histories were run against the real StateUpdater/ValueReader/telegram queue in virtual time; every GroupValueRead that reached the stub interface was checked against validity predicates "
+    "Generated histories were run against the real StateUpdater/ValueReader/telegram queue in virtual time; every GroupValueRead the state updater queued (xknx.telegrams) was checked against validity predicates "
     "derived from the statement (only while connected and registered, one initial read per session, expire/every/init timing with stated slack, at most two ValueReader.read in progress). Sampled histories can refute, not prove."
 )
 LEVEL_NOTE = "Virtual time; stub interface confirms every frame; the simulated bus answers per a generated plan; slack constants are listed in the assumptions."
@@ -50,7 +50,7 @@ ASSUMPTIONS = [
     "expire: a further read is accepted only if >= interval after the later of session start and the last state telegram delivered to the value in that session; the gap between consecutive events (reads, state telegrams) of a session must not exceed interval + 2 s + initial-read slack",
     "every: consecutive reads of a session are >= interval and <= interval + 2 s + initial-read slack apart (the period restarts when a read finishes, a read takes at most the 2 s timeout plus queueing)",
     "state telegram = GroupValueWrite/GroupValueResponse with a 1-bit payload to the state address, delivered through the cEMI receive path; answers of the simulated bus are dropped while disconnected",
-    "reads in progress = calls of ValueReader.read between entry and exit (recording wrapper)",
+    "a read is issued when its GroupValueRead is put on xknx.telegrams (recording wrapper on the queue); reads in progress = calls of ValueReader.read between entry and exit (recording wrapper)",
     "other outgoing traffic ('traffic' op: sends that take 0.5-5 s on the interface or wait 3 s for a missing confirmation) legitimately delays reads: every deadline above is extended by the time the outgoing queue held such a telegram between the anchor and the deadline",
     "every device has its own state address; rate limit 0",
 ]
@@ -104,12 +104,12 @@ def execute(case):
     from xknx.core.value_reader import ValueReader
     from xknx.devices import Switch
     from xknx.dpt import DPTBinary
-    from xknx.telegram import GroupAddress, Telegram
+    from xknx.telegram import GroupAddress, Telegram, TelegramDirection
     from xknx.telegram.apci import GroupValueRead, GroupValueResponse, GroupValueWrite
     from xknx.core import XknxConnectionState
 
     devs = case["devs"]
-    res: dict = {"reads": [], "updates": [], "ops": [], "rw": [], "other_reads": [], "errors": [], "traffic": []}
+    res: dict = {"reads": [], "updates": [], "ops": [], "sent_reads": [], "rw": [], "other_reads": [], "errors": [], "traffic": []}
     saved_fmt = GroupAddress.address_format
     state = {"loop": None, "done": False}
     orig_read = ValueReader.read
@@ -161,13 +161,25 @@ def execute(case):
             if raw not in by_addr:
                 res["other_reads"].append((loop.time(), str(tg.destination_address)))
                 return
-            idx = len(res["reads"])
-            res["reads"].append((loop.time(), by_addr[raw]))
+            idx = len(res["sent_reads"])
+            res["sent_reads"].append((loop.time(), by_addr[raw]))
             plan = answers[idx] if idx < len(answers) else ["resp", 0.05]
             if plan[0] != "none":
                 loop.call_later(float(plan[1]), deliver, by_addr[raw], idx & 1, True)
 
         h.stub.on_sent = on_sent
+        # a read is "issued" when its GroupValueRead is put on xknx.telegrams (the property's observation point);
+        # it reaches the stub later when other outgoing traffic is ahead of it in the queue
+        orig_put = xknx.telegrams.put_nowait
+
+        def rec_put(item):
+            if item is not None and not state["done"] and isinstance(item.payload, GroupValueRead) and item.direction is TelegramDirection.OUTGOING:
+                raw = getattr(item.destination_address, "raw", None)
+                if raw in by_addr:
+                    res["reads"].append((loop.time(), by_addr[raw]))
+            return orig_put(item)
+
+        xknx.telegrams.put_nowait = rec_put  # type: ignore[method-assign]
         pending_plans: list = []  # FIFO of [put_index, kind, x] for traffic telegrams not yet on the interface
 
         def behaviour(idx, cemi):
